@@ -159,13 +159,10 @@ func (e *Engine) buildVC(f *ssa.Function, cfg *FnConfig, dead map[string]bool) (
 		}
 	}
 	// vacuity guard: some return must be reachable under everything that was assumed
-	if len(c.rets) > 0 {
-		var rs []string
-		for _, r := range c.rets {
-			rs = append(rs, r.reach)
-		}
-		o := &Obl{Class: "cover", Fn: c.fnName(), Pos: c.eng.prog.Fset.Position(f.Pos()), Text: "a return is reachable (assumptions are consistent)", Guard: "(or " + strings.Join(rs, " ") + " false)", Cond: "false", Expect: "sat"}
-		o.Name = c.fnName() + "#cover:return"
+	for ri, r := range c.rets {
+		// every return statement is reachable under everything that was assumed on the way to it
+		o := &Obl{Class: "cover", Fn: c.fnName(), Pos: c.eng.prog.Fset.Position(r.pos), Text: "this return is reachable (assumptions are consistent)", Guard: r.reach, Cond: "false", Expect: "sat"}
+		o.Name = fmt.Sprintf("%s#cover:return%d", c.fnName(), ri)
 		c.obls = append(c.obls, o)
 	}
 	return c, nil
